@@ -55,6 +55,17 @@ impl Wake for CountingWaker {
     fn wake_by_ref(self: &Arc<Self>) { self.0.fetch_add(1, Ordering::SeqCst); }
 }
 
+/// A waker of one poll of `howl`.  The contract of `Future::poll` is that only the waker of the *most recent* poll has to be
+/// woken; every poll here gets a waker of its own generation and a wake is counted for P only when it arrives on the latest
+/// one.  A wake-up delivered to a waker that an earlier poll left behind (a stale waker kept in WAKER) wakes nobody.
+struct GenWaker { gen: u64, current: Arc<AtomicU64>, count: Arc<CountingWaker>, stale: Arc<AtomicU64> }
+impl Wake for GenWaker {
+    fn wake(self: Arc<Self>) { self.wake_by_ref() }
+    fn wake_by_ref(self: &Arc<Self>) {
+        if self.gen == self.current.load(Ordering::SeqCst) { self.count.0.fetch_add(1, Ordering::SeqCst); } else { self.stale.fetch_add(1, Ordering::SeqCst); }
+    }
+}
+
 fn free_port() -> u16 {
     let l = std::net::TcpListener::bind("127.0.0.1:0").expect("bind");
     l.local_addr().unwrap().port()
@@ -119,18 +130,23 @@ fn fine(args: &[String]) {
     let port = free_port();
     let rt = tokio::runtime::Builder::new_multi_thread().worker_threads(2).enable_all().build().expect("runtime");
     let wakes = Arc::new(CountingWaker(AtomicU64::new(0)));
+    let stale_wakes = Arc::new(AtomicU64::new(0));
     // ---- P: the thread that polls `howl` ----
     let p_handle = {
-        let coord = coord.clone(); let wakes = wakes.clone(); let handle = rt.handle().clone();
+        let coord = coord.clone(); let wakes = wakes.clone(); let stale_wakes = stale_wakes.clone(); let handle = rt.handle().clone();
         std::thread::spawn(move || {
             coord.st.lock().unwrap().p_thread = Some(std::thread::current().id());
             coord.cv.notify_all();
             let _guard = handle.enter();
             let addr: std::net::SocketAddr = ([127, 0, 0, 1], port).into();
             let mut fut = Box::pin(app().howl(addr));
-            let waker = Waker::from(wakes.clone());
+            let current = Arc::new(AtomicU64::new(0));
+            let mut gen = 0u64;
             loop {
                 { let mut g = coord.st.lock().unwrap(); while !g.p_start { g = coord.cv.wait(g).unwrap(); } g.p_start = false; }
+                gen += 1;
+                current.store(gen, Ordering::SeqCst);
+                let waker = Waker::from(Arc::new(GenWaker { gen, current: current.clone(), count: wakes.clone(), stale: stale_wakes.clone() }));
                 let mut cx = Context::from_waker(&waker);
                 let r = fut.as_mut().poll(&mut cx);
                 let mut g = coord.st.lock().unwrap();
@@ -279,7 +295,7 @@ fn fine(args: &[String]) {
     }
     let g = coord.st.lock().unwrap();
     println!("{}", serde_json::json!({"mode": "fine", "trace": trace, "events": g.events, "sig_raised": sig_raised, "returned": g.p_returned, "h_done": g.h_done,
-        "quiescent": quiescent, "decisions": decisions, "conns": conns, "spin_polls": spin_polls}));
+        "quiescent": quiescent, "decisions": decisions, "conns": conns, "spin_polls": spin_polls, "stale_wakes": stale_wakes.load(Ordering::SeqCst)}));
     drop(g);
     let _ = p_handle; // P may be parked forever (lost wake-up): leave without joining
     std::process::exit(0);
